@@ -1,5 +1,5 @@
 (** C17/Proofs.v — assembling the round trip: render, lex, parse, infer. *)
-From EV Require Import C17.Model C17.Spec C17.LexProofs C17.ParseProofs C17.InferProofs.
+From EV Require Import C17.Model C17.Spec C17.LexProofs C17.ParseProofs C17.InferProofs C17.SameProofs.
 From Coq Require Import String Lia.
 Local Open Scope N_scope.
 
@@ -42,6 +42,26 @@ Proof.
   rewrite E in P1. rewrite P1 in P2. injection P2. auto.
 Qed.
 
+(** ** The type read back is the same type, modulo the order of union members *)
+Theorem reads_back_same_outside_known : forall (e : env) (t : ty),
+  Small t -> annot_form e t = true -> known e t = false ->
+  exists t', parse e (render t) = Some t' /\ ty_eqv t' t = true.
+Proof.
+  intros e t HS Ha Hk. exists (norm e t). split; [apply parse_render; exact HS|].
+  destruct HS as [Hs _]. apply (norm_same e t _ _ Hs Ha Hk).
+Qed.
+
+(** ... and the recorded class is real: [any?] is read back as [any] *)
+Theorem reads_back_same_refuted : exists t : ty,
+  Small t /\ annot_form [] t = true /\ known [] t = true
+  /\ exists t', parse [] (render t) = Some t' /\ ty_eqv t' t = false.
+Proof.
+  exists (TUnion UBasic [TPrim PAny; TPrim PNil]).
+  split; [split; [vm_compute; reflexivity|discriminate]|].
+  split; [vm_compute; reflexivity|]. split; [vm_compute; reflexivity|].
+  exists (TPrim PAny). split; vm_compute; reflexivity.
+Qed.
+
 (** the lexer alone: a rendered type is read back as exactly its tokens *)
 Theorem tokens_of_render : forall t, small Documentation 0 t = true -> lex (render t) = ptoks t.
 Proof. exact lex_render. Qed.
@@ -57,6 +77,9 @@ Proof. split; [vm_compute; reflexivity|discriminate]. Qed.
 
 Example ex_roundtrip : parse [] (render ex_type) = Some ex_type.
 Proof. vm_compute. reflexivity. Qed.
+
+Example ex_annot : annot_form [] ex_type = true /\ known [] ex_type = false.
+Proof. vm_compute. split; reflexivity. Qed.
 
 (** the rendering the fixed renderer produces for the two confirmed defects *)
 Example ex_optional_array :
